@@ -431,3 +431,53 @@ def std_lookup(n):
     """the non-const overload of a standard element accessor: hands out a position / reference and changes nothing by itself"""
     from sa.ir import short as _short
     return isinstance(n, dict) and n.get("k") == "call" and (n.get("name") or "").startswith("std::") and _short(n.get("name") or "") in _STD_LOOKUPS
+
+
+def regex_runs(f):
+    """[(node, matcher short name, subject argument nodes)]: every place where f runs a std::regex over some text
+    (regex_match / regex_search / regex_replace calls, regex_iterator / regex_token_iterator constructions)"""
+    out = []
+    for bid, i, e in f.all_elems():
+        x = e.get("expr")
+        if not isinstance(x, dict):
+            continue
+        nodes = list(walk(x))
+        if x.get("k") == "decl":
+            for v in x.get("vars", []):
+                iu = ir.unwrap(v.get("init")) if v.get("init") is not None else None
+                if isinstance(iu, dict) and iu.get("k") in ("paren_list", "init_list") and "regex_" in (v.get("type") or "") and "iterator" in (v.get("type") or ""):
+                    nodes.append({"k": "construct", "name": v.get("type"), "args": list(iu.get("elems", iu.get("kids", []))), "ln": e.get("ln")})
+        for n in nodes:
+            k = n.get("k")
+            nm = n.get("name") or n.get("type") or ""
+            if k == "construct" and "regex_" in nm and "iterator" in nm and len(n.get("args", [])) >= 2:
+                out.append((n, "regex_iterator", n["args"][:2]))
+            elif k == "call" and short(nm) in ("regex_search", "regex_match", "regex_replace") and n.get("args"):
+                a = n["args"]
+                # (first, last, ...) or (text, ...)
+                two = len(a) >= 3 and fmt(ir.unwrap(a[0])).endswith("begin()") and fmt(ir.unwrap(a[1])).endswith("end()")
+                out.append((n, short(nm), a[:2] if two else a[:1]))
+    return out
+
+
+TOKEN_DOC = "-{1,2}[^-=]+[^=]*(=[\\x00-\\xff]*)?"
+_token_cache = {}
+
+
+def token_syntax_by_hand(ctx, ctor):
+    """A10: the verdicts of a character-level token check on every abstract token (sa/tokeneval.py); None + the reason when the
+    constructor is outside the finite domain. Cached per program."""
+    from sa import tokeneval
+    key = (id(ctx.prog), ctor.id)
+    if key not in _token_cache:
+        cg = callgraph(ctx)
+        helpers = [g for g in (ctx.prog.fn(i) for i in sorted(cg.reachable([ctor.id])) if i != ctor.id) if g is not None and g.has_cfg and g.file.startswith("/repo/") and not g.flags.get("noreturn")]
+        try:
+            _token_cache[key] = (tokeneval.decide(ctx.prog, ctor, helpers), None)
+        except tokeneval.Unsupported as ex:
+            _token_cache[key] = (None, str(ex))
+    return _token_cache[key]
+
+
+def show_token(tok, other):
+    return "".join("<any>" if b == other else (chr(b) if 32 <= b < 127 else "\\x%02x" % b) for b in tok)
